@@ -148,6 +148,10 @@ func DecodePropFindRequest(r *http.Request) (*PropFind, error) {
 		}
 		propfind.AllProp = &struct{}{}
 	}
+	if propfind.PropName == nil && propfind.AllProp == nil && propfind.Prop == nil {
+		// refuse it here: a backend with nothing to answer would never notice
+		return nil, HTTPErrorf(http.StatusBadRequest, "webdav: request missing propname, allprop or prop element")
+	}
 	return &propfind, nil
 }
 
